@@ -454,18 +454,25 @@ def r8(cx):
     f = cx.f
     from ..core import bool_call_condition
     n = 0
-    for b in f.scan_bodies():
-        if not b.file.endswith("bplustree/tree.rs") or "::tests::" in b.id:
+    # the in-place write = `LeafNode::insert` outside the split routine (which makes room first).  It may sit in a helper:
+    # then the capacity test is looked for at the helper's call sites.
+    sites_ = []
+    for c in f.callers_of("LeafNode::insert"):
+        wb = f.fn_of(c.body)
+        if "split" in wb.name or "::tests::" in wb.id:
             continue
-        ws = [c for c in b.calls if c.bb in b.live and c.primary.split("::")[-1] == "insert_into_leaf"]
-        if not ws:
-            continue
+        if any(x.bb in wb.live and x.primary.split("::")[-1] == "can_fit_entry" for x in wb.calls):
+            sites_.append((wb, c))
+        else:
+            short_ty = (wb.self_ty or "").split("<")[0].split("::")[-1]
+            for c2 in f.callers_of("%s::%s" % (short_ty, wb.name)):
+                sites_.append((f.fn_of(c2.body), c2))
+    for b, w in sites_:
         cf = [c for c in b.calls if c.bb in b.live and c.primary.split("::")[-1] == "can_fit_entry"]
-        for w in ws:
-            n += 1
-            conds = [bool_call_condition(b, c, w.bb) for c in cf]
-            ok = any(cnd == frozenset({True}) for cnd in conds)
-            cx.check(ok, "`%s`: the in-place leaf write is reached only when can_fit_entry is true" % b.id, "leaf-write-without-capacity-test|%s" % b.name, w.where(),
-                     "`%s` can reach `insert_into_leaf` although `can_fit_entry` said no (or without asking): the leaf is rewritten with a cell whose on-page size was never "
-                     "priced; when it does not fit the write fails AFTER the old overflow chain was freed, and the stored leaf points at free pages" % b.id)
+        n += 1
+        conds = [bool_call_condition(b, c, w.bb) for c in cf]
+        ok = any(cnd == frozenset({True}) for cnd in conds)
+        cx.check(ok, "`%s`: the in-place leaf write is reached only when can_fit_entry is true" % b.id, "leaf-write-without-capacity-test|%s" % b.name, w.where(),
+                 "`%s` can reach the in-place leaf write (`%s`) although `can_fit_entry` said no (or without asking): the leaf is rewritten with a cell whose on-page size was never "
+                 "priced; when it does not fit the write fails AFTER the old overflow chain was freed, and the stored leaf points at free pages" % (b.id, w.primary.split("::")[-1]))
     cx.floor("in-place leaf writes", n, 1)
